@@ -594,7 +594,7 @@ func init() {
 	fw.Register(&fw.Prop{
 		ID:    "C14",
 		Level: "model_checking",
-		Rule:  "19 scenarios on the real Start/accept loop/connection goroutines over the in-memory network: two clients doing CONFIG SET/GET; a client connecting while another CONFIG SETs requirepass; two clients running a command of every executor family (and AUTH sequences) against a race-free double; two clients connecting/disconnecting while the harness enumerates the registry (Conns, ConnByUUID, connection accessors); Stop concurrent with clients mid-command and connecting; Restart with an idle client; Restart after SetRequirePass; two TLS clients (real handshake) doing CONFIG SET while Stop runs; two application goroutines enumerating the registry at once right after a connect, with a further client connecting or with Stop running; two connected clients sending AUTH (one- and two-argument) and SELECT while Stop / Restart closes their connections; an application goroutine calling the configuration API (SetConfig, AppendConfig, RemoveConfig, ConfigString, SetRequirePass, RemoveRequirePass, SetTLSPort, ...) while two clients read the configuration literally and through patterns, write it, connect and authenticate; Stop / Restart sweeping connections whose Close reports an error; an application goroutine reading every accessor of every registered connection while TLS clients handshake; two clients on the same keys of the bundled example store, one with flat and one with nested command arrays. Local variables shared with a goroutine through a closure started by a go statement are instrumented like fields. Every schedule within deviation bound 2 (thorough 3) is executed with every field access of the instrumented framework feeding a vector-clock happens-before oracle (edges: go, mutex/RWMutex release-acquire, sync.Map per key, connection write->read, dial->accept, close->EOF/error; scheduler hand-offs are NOT edges); locations found racy become scheduling points and the exploration is repeated until the racy set is stable. A race is an unordered pair of access sites on one location with at least one write; a WaitGroup's first increment from zero and a blocking Wait count as read and write of one location, as in the Go race detector.",
+		Rule:  "19 scenarios on the real Start/accept loop/connection goroutines over the in-memory network: two clients doing CONFIG SET/GET; a client connecting while another CONFIG SETs requirepass; two clients running a command of every executor family (and AUTH sequences) against a race-free double; two clients connecting/disconnecting while the harness enumerates the registry (Conns, ConnByUUID, connection accessors); Stop concurrent with clients mid-command and connecting; Restart with an idle client; Restart after SetRequirePass; two TLS clients (real handshake) doing CONFIG SET while Stop runs; two application goroutines enumerating the registry at once right after a connect, with a further client connecting or with Stop running; two connected clients sending AUTH (one- and two-argument) and SELECT while Stop / Restart closes their connections; an application goroutine calling the configuration API (SetConfig, AppendConfig, RemoveConfig, ConfigString, SetRequirePass, RemoveRequirePass, SetTLSPort, ...) while two clients read the configuration literally and through patterns, write it, connect and authenticate; Stop / Restart sweeping connections whose Close reports an error; an application goroutine reading every accessor of every registered connection while TLS clients handshake; two clients on the same keys of the bundled example store, one with flat and one with nested command arrays. A handler that writes one shared word on every call stands for any application store relying on one command at a time: handler calls not ordered by happens-before are reported. Local variables shared with a goroutine through a closure started by a go statement are instrumented like fields. Every schedule within deviation bound 2 (thorough 3) is executed with every field access of the instrumented framework feeding a vector-clock happens-before oracle (edges: go, mutex/RWMutex release-acquire, sync.Map per key, connection write->read, dial->accept, close->EOF/error; scheduler hand-offs are NOT edges); locations found racy become scheduling points and the exploration is repeated until the racy set is stable. A race is an unordered pair of access sites on one location with at least one write; a WaitGroup's first increment from zero and a blocking Wait count as read and write of one location, as in the Go race detector.",
 		Assumptions: []string{
 			"setters documented as pre-start configuration (SetTracer, SetCommandHandler, RegisterExexutor, SetPort) are called before Start only; SetRequirePass before Restart is called by the lifecycle thread between Stop-free calls as the repository's own tests do",
 			"the race-detector stress with 2..32 clients is replaced by exhaustive small scenarios: a race is a pair of accesses, two contending threads exhibit it",
